@@ -138,7 +138,7 @@ def hash_seeds(ctx):
 
 
 def run(ctx):
-    ctx.check_proofs(["MPilot.Props.C14"])
+    ctx.check_proofs(["MPilot.Props.C14", "MPilot.Props.C14Cycle"])
     hash_seeds(ctx)
     model = common.Model()
     cyc, acy = scenarios(ctx)
